@@ -1888,3 +1888,24 @@ TABLE["C10"] += [
       (MX, "        if len(instantiated_class.ctors) != 0:\n            return instantiated_class.ctors[0].name\n\n        return instantiated_class.name\n",
        "        if len(instantiated_class.ctors) != 0:\n            return instantiated_class.ctors[0].name[:63]\n\n        return instantiated_class.name[:63]\n")),
 ]
+_RTTI_A = "            if cls.is_virtual:\n                class_name, class_name_sep = self.get_class_name(cls)\n                rtti_classes += '    types.insert(std::make_pair(typeid({}).name(), \"{}\"));\\n' \\\n                    .format(class_name_sep, class_name)\n"
+TABLE["C10"] += [
+    B("rtti-lines-from-unfiltered-classes-zipped-with-filtered-names", {"T20", "T1"},
+      (MW, "            class_name, class_name_sep = self.get_class_name(cls)\n\n            # If a class has instantiations", "            class_name, class_name_sep = self.get_class_name(cls)\n            class_names.append((class_name, class_name_sep))\n\n            # If a class has instantiations"),
+      (MW, "        rtti_classes = ''\n\n        for cls in self.classes:", "        class_names = []\n\n        for cls in self.classes:"),
+      (MW, _RTTI_A, ""),
+      (MW, "        # Generate the typedef instances string\n", "        rtti_classes = ''.join('    types.insert(std::make_pair(typeid({}).name(), \"{}\"));\\n'.format(sep_, name_)\n                               for cls, (name_, sep_) in zip(self.classes, class_names) if cls.is_virtual)\n        # Generate the typedef instances string\n")),
+    N("rtti-lines-from-the-filtered-classes-after-the-loop",
+      (MW, "            class_name, class_name_sep = self.get_class_name(cls)\n\n            # If a class has instantiations", "            class_name, class_name_sep = self.get_class_name(cls)\n            class_names.append((cls, class_name, class_name_sep))\n\n            # If a class has instantiations"),
+      (MW, "        rtti_classes = ''\n\n        for cls in self.classes:", "        class_names = []\n\n        for cls in self.classes:"),
+      (MW, _RTTI_A, ""),
+      (MW, "        # Generate the typedef instances string\n", "        rtti_classes = ''.join('    types.insert(std::make_pair(typeid({}).name(), \"{}\"));\\n'.format(sep_, name_)\n                               for cls, name_, sep_ in class_names if cls.is_virtual)\n        # Generate the typedef instances string\n")),
+    B("registry-keyed-by-the-cpp-type", {"T21"},
+      (MW, "        if self.classes_elems.get(instantiated_class) is None:\n            self.classes_elems[instantiated_class] = 0", "        if self.classes_elems.get(instantiated_class.to_cpp()) is None:\n            self.classes_elems[instantiated_class.to_cpp()] = 0")),
+    B("registry-keyed-by-the-bare-name", {"T21"},
+      (MW, "        if self.classes_elems.get(instantiated_class) is None:\n            self.classes_elems[instantiated_class] = 0", "        if self.classes_elems.get(instantiated_class.name) is None:\n            self.classes_elems[instantiated_class.name] = 0")),
+    B("clean-up-block-skipped-for-typedefd-classes", {"T20", "T1"},
+      (MW, "            delete_objs += WrapperTemplate.delete_obj.format(\n                class_name=class_name)", "            if not cls.instantiations:\n                delete_objs += WrapperTemplate.delete_obj.format(\n                    class_name=class_name)")),
+    B("instantiated-classes-equal-by-cpp-type", {"T21"},
+      ("gtwrap/template_instantiator/classes.py", "    def instantiate_parent_class(self, typenames):", "    def __eq__(self, other):\n        return isinstance(other, InstantiatedClass) and self.to_cpp() == other.to_cpp()\n\n    def __hash__(self):\n        return hash(self.to_cpp())\n\n    def instantiate_parent_class(self, typenames):")),
+]
